@@ -182,13 +182,51 @@ def discharge_many(jobs: list[tuple[str, list[str], int | None, int | None]], wo
 		return list(ex.map(_job, jobs, chunksize=1))
 
 
+_light_cache: dict[int, bool] = {}
+_quick_cache: dict[tuple, bool] = {}
+_keep_alive: list = []
+
+
+def _is_light(e) -> bool:
+	"""No quantifiers: cheap for an in-process feasibility probe."""
+	i = e.get_id()
+	r = _light_cache.get(i)
+	if r is not None:
+		return r
+	ok = True
+	stack = [e]
+	seen = set()
+	while stack:
+		x = stack.pop()
+		xi = x.get_id()
+		if xi in seen:
+			continue
+		seen.add(xi)
+		if z3.is_quantifier(x):
+			ok = False
+			break
+		if z3.is_app(x):
+			stack.extend(x.children())
+	_light_cache[i] = ok
+	_keep_alive.append(e)
+	return ok
+
+
 def quick_unsat(assumptions: list[z3.BoolRef], ms: int = 60) -> bool:
-	"""In-process feasibility pruning: True only when z3 proves the conjunction unsatisfiable."""
+	"""In-process feasibility pruning: True only when z3 proves the conjunction unsatisfiable.
+	Heavy assumptions (quantifiers, recursive definitions) are dropped first -- dropping premises can only lose pruning, never soundness."""
+	light = [a for a in assumptions if _is_light(a)]
+	key = tuple(sorted(a.get_id() for a in light))
+	r = _quick_cache.get(key)
+	if r is not None:
+		return r
 	s = z3.Solver()
 	s.set('timeout', ms)
-	for a in assumptions:
+	for a in light:
 		s.add(a)
-	return s.check() == z3.unsat
+	r = s.check() == z3.unsat
+	_quick_cache[key] = r
+	return r
 
 
 def simp(t):
